@@ -87,7 +87,7 @@ ALPHA1 = [
     "<", ">", "!", "#", "~", "-", "=", ",", "%", "@", "`", "\u00e9",
 ]
 KEYWORD_NAMES = ["and", "or", "not", "in", "is", "if"]
-STYLES = ["", "'", '"', "r'", 'r"', "'''", "p'", "pr'"]
+STYLES = ["", "'", '"', "r'", 'r"', "'''", "p'", "pr'", "rp'"]  # rp' = the r-before-p spelling (normalised to pr by the completer)
 
 CHAR_NAMES = {
     "a": "a", "b": "b", "f": "f", "i": "i", " ": "sp", "'": "sq", '"': "dq", "$": "dollar", "\\": "bslash", "\n": "nl", "\t": "tab",
@@ -97,7 +97,7 @@ CHAR_NAMES = {
     "\u00e9": "eacute",
 }
 STYLE_NAMES = {"": "bare", "'": "sq", '"': "dq", "r'": "r-sq", 'r"': "r-dq", "'''": "tsq", '"""': "tdq",
-               "p'": "p-sq", "pr'": "pr-sq", 'p"': "p-dq", 'pr"': "pr-dq", "r'''": "r-tsq", "p'''": "p-tsq", "pr'''": "pr-tsq"}
+               "p'": "p-sq", "pr'": "pr-sq", "rp'": "rp-sq", 'rp"': "rp-dq", 'p"': "p-dq", 'pr"': "pr-dq", "r'''": "r-tsq", "p'''": "p-tsq", "pr'''": "pr-tsq"}
 
 
 def shape(name):
